@@ -23,6 +23,7 @@ import hashlib
 import json
 import math
 import os
+import types
 import sys
 from fractions import Fraction as F
 from types import SimpleNamespace as NS
@@ -489,6 +490,53 @@ def load_finding(chk):
     return None
 
 
+def header_handover(chk):
+    """Site data must reach the sun-position routine exactly as the EPW header gives it: generate()
+    on copies of the Singapore file with synthetic LOCATION lines (time zone 0, negative, fractional;
+    longitudes of both signs), then lat / lon / gmt of the model and of its RSM objects, and the zenith
+    the real SolarCalcs computes for them, are compared with the header values."""
+    import csv
+    import io
+    import contextlib
+    import core
+    import uwgutil as U
+    uwg = U.uwg_mod()
+    work = chk.work()
+    src = list(csv.reader(open(U.rp(U.EPW_SGP), newline='', errors='ignore')))
+    heads = [('38.72', '-9.14', '0.0'), ('64.13', '-21.9', '0.0'), ('14.69', '-17.45', '0'), ('43.8', '87.6', '6.0'),
+             ('43.8', '87.6', '8.0'), ('-33.9', '18.6', '2.0'), ('-33.9', '18.6', '1.0'), ('28.6', '77.2', '5.5'),
+             ('47.6', '-52.7', '-3.5'), ('1.37', '103.98', '8.0'), ('-17.5', '-149.6', '-10.0')]
+    bad = 0
+    for k, (la, lo, tz) in enumerate(heads):
+        rows = [list(r) for r in src]
+        rows[0][6], rows[0][7], rows[0][8] = la, lo, tz
+        pth = os.path.join(work, 'hdr%d.epw' % k)
+        with open(pth, 'w', newline='') as f:
+            csv.writer(f, lineterminator='\n').writerows(rows)
+        m = U.new_model(epw=pth, outdir=work, outname='h.epw', nday=1)
+        with contextlib.redirect_stdout(io.StringIO()):
+            m.generate()
+        got = (m.lat, m.lon, m.gmt, m.RSM.lat, m.RSM.lon, m.RSM.gmt)
+        want = (float(la), float(lo), float(tz)) * 2
+        # and what the real routine computes from them at 09:00 on 21 March, against the as-coded formula
+        sol = uwg.SolarCalcs(m.UCM, m.BEM, types.SimpleNamespace(month=3, day=21, secDay=32400,
+                                                                 inobis=m.simTime.inobis),
+                             m.RSM, m.forc, m.geoParam, m.rural)
+        sol.solarangles()
+        ref = ascoded_cosz(3, 21, 32400, float(la), float(lo), float(tz))
+        if got != want or abs(math.cos(sol.zenith) - ref) > 1e-9:
+            bad += 1
+            chk.violation('impl-violation', 'site data of the EPW header does not reach the sun-position routine',
+                          case={'latitude': la, 'longitude': lo, 'time_zone': tz},
+                          observed={'model (lat, lon, gmt, RSM.lat, RSM.lon, RSM.gmt)': got,
+                                    'cos_zenith': math.cos(sol.zenith)},
+                          expected={'header': want[:3], 'cos_zenith(as coded, header values)': ref})
+    chk.direct('header-handover(generate on synthetic LOCATION lines)', len(heads), len(heads),
+               'lat / lon / time zone of synthetic EPW headers (zone 0, negative, fractional; several files with '
+               'equal coordinates and different zones, run in one process) must arrive unchanged in the model and its '
+               'RSM objects, and the real solarangles must use them', mismatches=bad)
+
+
 def run(chk):
     chk.proof(MODULE, THEOREMS)
     if chk.tier == 'thorough':
@@ -507,7 +555,19 @@ def run(chk):
         for mo, dy in ((1, 1), (3, 21)):
             main.append(dict(month=mo, day=dy, secDay=32400, lat=F(la), lon=F(lo), gmt=F(tz),
                              canAspect=F(3, 2), inobis=None, kind='shipped-header'))
+    # twins: the same instant and site with ONE header field changed, evaluated right after the
+    # original in the same process (a result remembered under an incomplete key would show here)
+    twins = []
+    for cs in main[:80 if chk.tier == 'quick' else 600]:
+        for fld, delta in (('gmt', F(2)), ('lat', F(7)), ('lon', F(-11))):
+            tw = dict(cs)
+            tw[fld] = cs[fld] + delta if abs(cs[fld] + delta) <= (14 if fld == 'gmt' else 66 if fld == 'lat' else 180) \
+                else cs[fld] - delta
+            tw['kind'] = 'twin-' + fld
+            twins.append(tw)
+    main += twins
     main += clamp_probes(SC, chk.rng, sites, 40 if chk.tier == 'quick' else 200)
+    header_handover(chk)
     edge = [gen_edge(chk.rng, sites) for _ in range(120 if chk.tier == 'quick' else 600)]
 
     real_main = [run_exact(SC, cs) for cs in main]
